@@ -32,10 +32,11 @@ type LifeAct struct {
 }
 
 type HandleObs struct {
-	Cls string `json:"cls"` // none | ok | closed | err
-	C0  []int  `json:"c0"`
-	C1  []int  `json:"c1"`
-	Dd  bool   `json:"dd"` // collection c1 has the design document
+	Cls  string `json:"cls"` // none | ok | closed | err
+	C0   []int  `json:"c0"`
+	C1   []int  `json:"c1"`
+	Dd   bool   `json:"dd"`   // collection c1 has the design document
+	Has1 bool   `json:"has1"` // ListDataStores lists collection c1
 }
 type FeedLifeObs struct {
 	N    int  `json:"n"`    // callbacks since the previous line
@@ -257,6 +258,9 @@ func (lr *lifeRun) probe(b *rosmar.Bucket) HandleObs {
 			}
 			if !present {
 				continue
+			}
+			if c == "c1" {
+				o.Has1 = true
 			}
 			ds, err := b.NamedDataStore(lifeColl(c))
 			if err != nil {
